@@ -8,7 +8,7 @@ import re
 import sympy as sp
 
 from ptstat import AnalysisError, algebra
-from ptstat.symval import SymObj, Phi, SymRaise, Closure, merge
+from ptstat.symval import SymObj, Phi, SymRaise, Closure, BoundMethod, merge
 from ptstat.symx import Frame
 from ptstat.world import mass_sym
 from .common import world, eq, dict_eq, fsite, raises, folder, _s
@@ -65,25 +65,62 @@ def grammar_roles(I, w):
             pass                      # an action may fail on the probe's data (e.g. unknown density); it has fired all the same
         named = []
         for fn, node, start in G.trace:
-            if isinstance(fn, Closure) and isinstance(fn.node, (_ast.FunctionDef,)) and fn not in named:
+            # named functions, bound methods and callable objects (anything but the small lambdas of the terminals)
+            is_named = (isinstance(fn, Closure) and isinstance(fn.node, _ast.FunctionDef)) or isinstance(fn, BoundMethod) \
+                or (isinstance(fn, SymObj) and fn.cls is not None and fn.cls.lookup("__call__") is not None)
+            if is_named and not any(_same_action(fn, g) for g in named):
                 named.append(fn)
         fired[role] = named
+        if role == "plain":
+            G._plain_trace = list(G.trace)
     G.trace = None
     roles = {}
     plain = fired["plain"]
+    inp = lambda f, fs: any(_same_action(f, g) for g in fs)
     if len(plain) >= 2:
-        roles["convert_element"], roles["convert_compound"] = plain[0], plain[-1]
-    seen = list(plain)
+        # the element action is the first to fire after the symbol has been looked up: a callable that turns the symbol
+        # text into an atom (object with state, e.g. a table lookup object) may come first; the element action is the first
+        # one whose node carries the four element tokens - identified as the first action fired on the *element* node, i.e.
+        # the last named action before the first action that also fires on '2Fe' with a different token count.  In practice:
+        # the first named action that is not attached to a terminal (Regex/Literal) node.
+        first = None
+        for fn, node, start in [t for t in (getattr(G, "_plain_trace", []) or [])]:
+            if inp(fn, plain) and not isinstance(node, (peg.Regex, peg.Literal)):
+                first = fn
+                break
+        roles["convert_element"] = first if first is not None else plain[0]
+        roles["convert_compound"] = plain[-1]
     for role in ("convert_by_weight", "convert_by_volume", "convert_by_layer", "convert_by_absmass"):
-        new = [f for f in fired[role] if f not in plain]
+        new = [f for f in fired[role] if not inp(f, plain)]
         if len(new) == 1:
             roles[role] = new[0]
     if "convert_by_weight" in roles:
-        new = [f for f in fired["convert_mixture"] if f not in plain and f is not roles["convert_by_weight"]]
+        new = [f for f in fired["convert_mixture"] if not inp(f, plain) and not _same_action(f, roles["convert_by_weight"])]
         if len(new) == 1:
             roles["convert_mixture"] = new[0]
     w._roles = roles
     return roles
+
+
+def _same_action(f, g):
+    if f is g:
+        return True
+    if isinstance(f, BoundMethod) and isinstance(g, BoundMethod):
+        return f.fn is g.fn and f.selfval is g.selfval
+    return False
+
+
+def _action_qual(fn):
+    """qualified name of the function that runs when the action fires (closure, bound method or callable object)"""
+    if isinstance(fn, Closure):
+        return fn.qual
+    if isinstance(fn, BoundMethod) and isinstance(fn.fn, Closure):
+        return fn.fn.qual
+    if isinstance(fn, SymObj) and fn.cls is not None:
+        m = fn.cls.lookup("__call__")
+        if isinstance(m, Closure):
+            return m.qual
+    raise AnalysisError(f"parse action {fn!r} has no source function")
 
 
 def action(I, w, name):
@@ -98,7 +135,7 @@ def action(I, w, name):
 def action_site(ctx, I, w, name):
     """where the action with that role is defined (for reports)"""
     fn = action(I, w, name)
-    return fsite(ctx, fn.qual)
+    return fsite(ctx, _action_qual(fn))
 
 
 def _generic_arm(v, p):
